@@ -376,6 +376,16 @@ static void janet_stream_close_impl(JanetStream *stream) {
     }
 #else
     if (stream->handle != -1) {
+#ifdef JANET_EV_EPOLL
+        /* Deregister explicitly: close() only removes the descriptor from the epoll set once every copy of the
+         * open file description is gone, and a child that is still between fork and exec holds copies of all of
+         * our descriptors. Otherwise epoll can report an event whose data pointer is this (soon freed) stream. */
+        if (!(stream->flags & JANET_STREAM_UNREGISTERED)) {
+            struct epoll_event ev;
+            memset(&ev, 0, sizeof(ev));
+            epoll_ctl(janet_vm.epoll, EPOLL_CTL_DEL, stream->handle, &ev);
+        }
+#endif
         if (canclose) close(stream->handle);
         stream->handle = -1;
 #ifdef JANET_EV_POLL
